@@ -71,6 +71,7 @@ def check(run):
                     run.sample({'edge': '%s -> %s' % (P['info'][d]['name'], P['info'][cc]['name']), 'params': params, 'program': P['text'].split('\n')[2:]})
             core.rm_rf(scratch)
             os.makedirs(scratch, exist_ok=True)
+        invalidate_race_family(run, scratch, rng, 60 if quick else 400)
         run.counts['embedding_kinds'] = embed_total
         run.counts['edge_tests'] = edges_tested
         if drv is not None and run.corr_disagreements == 0:
@@ -79,6 +80,44 @@ def check(run):
         core.rm_rf(scratch)
         if drv is not None:
             drv.close()
+
+
+def invalidate_race_family(run, scratch, rng, n):
+    """while one worker is inside a dependency of a consumer and the consumer's other dependency is already complete, ANOTHER PROCESS removes that complete result
+    (`jug invalidate` from another terminal: a different store object on the same data). The consumer must not be started on the strength of what a worker saw earlier:
+    it starts only if the removed dependency has a result again"""
+    from jugverif import genprog
+    text = genprog.HEADER + 'a = mk(1, 5)\nb = mk(2, 4)\nc = use(20, [a, b])\ne = inc(21, c)\nz = const(30)\n'
+    os.makedirs(scratch, exist_ok=True)
+    P = E.analyse_text(text, scratch)
+    by_k = {k: i for i, k in P['ks'].items()}
+    ia, ib = by_k[1], by_k[2]
+    for j in range(n):
+        backend = ['file', 'redis', 'file', 'dict', 'filepack', 'file'][j % 6]
+        params = {'backend': backend, 'nworkers': 2 + j % 2, 'sched_seed': rng.randrange(10 ** 9), 'policy': ['hold', 0, ib, [6, 15, 40, 120][j % 4]], 'operator': ['remove-result:%d' % ia, 0, ib],
+                  'pre_done': 0}
+        c = X.run_params(P, scratch, params, X.newtag())
+        run.case(('invalidate-race', j, run.seed), nontrivial=any(cl[0] == 'R' for cl in c.calls))
+        run.count('invalidate_race_runs')
+        pos_r = [p for p, cl in enumerate(c.calls) if cl[0] == 'R']
+        if not pos_r:
+            continue
+        after = c.calls[pos_r[0] + 1:]
+        recomputed_before = None
+        # a worker that computed or loaded the removed result itself still has the value in memory (Task._result) and may go on with it - that is jug's
+        # documented per-process cache, not a claim about the store; the family is about workers that only ever ASKED whether the result exists
+        holders = {cl[3] for cl in c.calls[:pos_r[0]] if cl[0] == 'E' and cl[2] == 1} | {e[1] for e in c.trace if e[0] == 'load' and e[2] == ia}
+        for cl in after:
+            if cl[0] == 'E' and cl[2] == 1:
+                recomputed_before = True
+            if cl[0] == 'B' and cl[2] == 20:
+                if not recomputed_before and cl[3] not in holders:
+                    X.fail_case(run, 'started-after-dependency-removed', 'use(k=20) depends on mk(k=1) and mk(k=2); while worker 0 was inside mk(k=2) another process removed the (complete) result of mk(k=1) '
+                                'from the %s store; use(k=20) was started afterwards by worker %s although mk(k=1) had no result again (a worker relied on what it had seen before)' % (backend, cl[3]), P, params)
+                break
+        bad = {w: r for w, r in c.results.items() if r and r[0] == 'raise' and r[1] not in ('SystemExit',)}
+        if bad:
+            X.fail_case(run, 'worker-dies-after-invalidate', 'after another process removed a result during the run, workers ended with %s' % bad, P, params)
 
 
 def replay(path):
